@@ -72,6 +72,9 @@ def reference_flags(tab, it, stream_col):
     rows = [i for i, m in enumerate(it["mask"]) if m]
     fn, kw, avail = S.direct_call(it["module"], it["test"], it["kwargs"], tab, rows)
     kw["inp"] = np.array([tab[stream_col][i] for i in rows], dtype="float64")
+    if tab.get("masked_rows"):
+        # the front end was fed masked arrays: the direct call gets the same rows, masked the same way
+        kw["inp"] = np.ma.MaskedArray(kw["inp"], mask=[i in tab["masked_rows"] for i in rows])
     kw.update(avail)
     kw = S.filter_sig(fn, kw)
     S.PROBE_LOG.clear()
@@ -108,6 +111,8 @@ def check_case(case):
         return check_reuse(case)
     tab = S.table(case["n"], case["z"], case["ll"], case.get("shuffled", False), case.get("nat", False), case.get("duptime", False))
     fe = case["fe"]
+    if fe.endswith(":ma"):
+        tab["masked_rows"] = [1]
     contexts = case["contexts"]
     cfgd = S.make_config(contexts, case.get("style", "str"))
     items = expected_items(tab, contexts)
@@ -115,11 +120,11 @@ def check_case(case):
     layout = fe
     nt = len(contexts) > 1 or any(not all(it["mask"]) for it in items)
     # for ndarray-input front ends every stream id maps to the single input array
-    colof = (lambda sid: "v") if fe in ("numpy:nd", "qcconfig") else (lambda sid: sid)
+    colof = (lambda sid: "v") if fe in ("numpy:nd", "qcconfig", "qcconfig:ma") else (lambda sid: sid)
     wk = "+".join(sorted({it["wk"] for it in items}))
     vs = []
 
-    if fe == "qcconfig":
+    if fe.startswith("qcconfig"):
         return check_qcconfig(case, tab, cfgd, items, nt, wk)
 
     if case.get("pre") is not None:
@@ -206,6 +211,8 @@ def check_qcconfig(case, tab, cfgd, items, nt, wk):
 
     vs = []
     kw = dict(inp=list(tab["v"]), tinp=S.dt64n(tab["time"]))
+    if tab.get("masked_rows"):
+        kw["inp"] = np.ma.MaskedArray(np.array(tab["v"], dtype="float64"), mask=[i in tab["masked_rows"] for i in range(tab["n"])])
     if "z" in tab:
         kw["zinp"] = list(tab["z"])
     if "lat" in tab:
@@ -313,15 +320,18 @@ def tasks(tier):
     for fe in S.FRONTENDS:
         ts.append(("big", 40 if tier == "quick" else 150, fe))
         ts.append(("big", 1500 if tier == "quick" else 2600, fe))
-    for fe in ("pandas:names", "xarray:names", "netcdf:names"):
+    for fe in ("pandas:names", "xarray:names", "netcdf:names", "xarray:axcoords", "numpy:ma", "qcconfig:ma"):
         ts.append(("one", 4, fe))
+    for fe in ("xarray:axcoords", "numpy:ma"):
+        ts.append(("two", 4, fe))
+        ts.append(("big", 40, fe))
     for fe in ("xarray:file", "netcdf:file"):
         ts.append(("one", 3, fe))
         ts.append(("two", 4, fe))
     for fe in S.FRONTENDS:
         if fe.startswith(("pandas", "xarray", "netcdf")):
             ts.append(("axis", 4, fe))
-        if fe != "qcconfig":
+        if not fe.startswith("qcconfig"):
             ts.append(("three", 4, fe))
             if tier == "thorough":
                 ts.append(("three", 6, fe))
@@ -404,7 +414,7 @@ def run_task(task, acc):
         return
 
     def usable(ctxs):
-        if fe in ("numpy:nd", "qcconfig"):
+        if fe in ("numpy:nd", "qcconfig", "qcconfig:ma"):
             return all(set(c["streams"]) == {"v"} for c in ctxs)
         return True
 
@@ -414,7 +424,7 @@ def run_task(task, acc):
         for ts_name, need, ctxs, style in progs:
             if not usable(ctxs):
                 continue
-            if fe == "qcconfig":
+            if fe.startswith("qcconfig"):
                 # QcConfig.run returns the default stream only: rename stream v -> _stream
                 ctxs = [dict(c, streams={"_stream": c["streams"]["v"]}) for c in ctxs]
                 if len(ctxs) > 1:
@@ -422,11 +432,11 @@ def run_task(task, acc):
             yield dict(n=n, z=need["z"], ll=need["ll"], fe=fe, contexts=ctxs, style=style, testset=ts_name)
             if kind == "big":
                 yield dict(n=n, z=need["z"], ll=need["ll"], fe=fe, contexts=ctxs, style=style, testset=ts_name, shuffled=True)
-                if fe != "qcconfig":
+                if not fe.startswith("qcconfig"):
                     yield dict(n=n, z=need["z"], ll=need["ll"], fe=fe, contexts=ctxs, style=style, testset=ts_name, shuffled=True, pre=dict())
                     yield dict(n=n, z=need["z"], ll=need["ll"], fe=fe, contexts=ctxs, style=style, testset=ts_name, pre=dict(shuffled=True))
                 continue
-            if n >= 3 and ts_name == "probe" and fe != "qcconfig":
+            if n >= 3 and ts_name == "probe" and not fe.startswith("qcconfig"):
                 yield dict(n=n, z=need["z"], ll=need["ll"], fe=fe, contexts=ctxs, style=style, testset=ts_name, shuffled=True, pre=dict())
                 yield dict(n=n, z=need["z"], ll=need["ll"], fe=fe, contexts=ctxs, style=style, testset=ts_name, pre=dict(shuffled=True))
             if n >= 2 and ts_name == "probe" and fe != "xarray:coord":
